@@ -13,10 +13,12 @@ def _smt(run):
     C02smt.ob_smt(run)
     C02smt.ob_ad(run)
     asmsse.ob(run, 'C02')      # MMX/SSE instructions: reference objdump
+    from checks import asmrel
+    asmrel.ob(run, 'C02')        # relative branches
 
 if __name__ == '__main__':
     sys.exit(asmfam.run_family('C02', sys.argv[1:], 'other', RULE + '; ' + TEXT['C02'][0], TEXT['C02'][1],
                                ['specs/x86dec.py (reference disassembler)', 'bounded/asmgen.py printers (audited against GNU as: 16475 of 16878 generated lines assemble to an encoding of the intended instruction)'] + (['/usr/bin/as (GNU assembler, executed)'] if 'C02' in ('C03', 'C09') else []),
-                               ['MMX/SSE instructions are checked on 5 operand forms per table row and mandatory prefix with GNU objdump as the reference (checks/asmsse.py); relative branches and far pointers are outside the generator', 'lines the assembler rejects with ValueError are not constrained',
+                               ['MMX/SSE instructions are checked on 5 operand forms per table row and mandatory prefix with GNU objdump as the reference (checks/asmsse.py); relative branches with a numeric displacement are checked separately against the spec decoder (checks/asmrel.py: all spellings of jmp/call/jcc/loop*/jecxz x 24 boundary displacements); far pointers are outside the generator', 'lines the assembler rejects with ValueError are not constrained',
                                 'check_imm_size proof: callee contracts of the modint constructors/__int__ (proved in C14); the ordering methods of moduint are executed inline (float operand uint32.limit/2)'],
                                extra=_smt))
